@@ -6,6 +6,51 @@ import (
 	"os"
 )
 
+// gen is a trace generator for one property: pick(q, t) selects the quick or thorough budget.
+type gen func(m *M, pick func(q, t int) int, shards int)
+
+var gens = map[string]gen{}
+
+func perFile(m *M, total, shards int) {
+	m.perFile = total / shards
+	if m.perFile < 10 {
+		m.perFile = 10
+	}
+}
+
+func init() {
+	gens["C01"] = func(m *M, pick func(q, t int) int, shards int) {
+		// full-width multiplications dominate the validator's time: one per trace file
+		m.perFile = 1
+		genC01(m, pick(24, 256), 0)
+		perFile(m, pick(60, 2000)*5, shards)
+		genC01(m, 0, pick(60, 2000))
+	}
+	simple := func(f func(*M, int), q, t int) gen {
+		return func(m *M, pick func(q, t int) int, shards int) {
+			total := pick(q, t)
+			perFile(m, total, shards)
+			f(m, total)
+		}
+	}
+	gens["C02"] = simple(genC02, 800, 40000)
+	gens["C03"] = simple(genC03, 2500, 60000)
+	gens["C04"] = simple(genC04, 700, 20000)
+	gens["C05"] = simple(genC05, 600, 20000)
+	gens["C06"] = simple(genC06, 3000, 100000)
+	gens["C07"] = simple(genC07, 900, 20000)
+	gens["C08"] = simple(genC08, 70, 1500)
+	gens["C09"] = simple(genC09, 120, 2500)
+	gens["C13"] = simple(genC13, 1500, 40000)
+	gens["C14"] = simple(genC14, 450, 10000)
+	gens["C15"] = simple(genC15, 600, 15000)
+	gens["C18"] = simple(genC18, 400, 10000)
+	gens["C10"] = func(m *M, pick func(q, t int) int, shards int) {
+		perFile(m, pick(150, 3000)*42, shards)
+		genC10(m, pick(150, 3000), 40)
+	}
+}
+
 func main() {
 	prop := flag.String("prop", "", "property id (C01..C19)")
 	out := flag.String("out", "", "output directory for trace shards")
@@ -13,9 +58,10 @@ func main() {
 	tier := flag.String("tier", "quick", "quick | thorough")
 	shards := flag.Int("shards", 16, "number of trace files to spread histories over")
 	scale := flag.Float64("scale", 1.0, "budget multiplier")
+	scenario := flag.String("scenario", "", "re-execute the calls of a recorded history (ndjson) instead of generating")
 	flag.Parse()
 	if *out == "" || *prop == "" {
-		fmt.Fprintln(os.Stderr, "usage: harness -prop Cxx -out DIR [-seed N] [-tier quick|thorough]")
+		fmt.Fprintln(os.Stderr, "usage: harness -prop Cxx -out DIR [-seed N] [-tier quick|thorough] [-scenario FILE]")
 		os.Exit(2)
 	}
 	thorough := *tier == "thorough"
@@ -24,76 +70,25 @@ func main() {
 		if thorough {
 			v = t
 		}
-		return int(float64(v) * *scale)
+		v = int(float64(v) * *scale)
+		if v < 1 {
+			v = 1
+		}
+		return v
 	}
 	m := newMachine(*out, *prop, *seed, 4, 3)
-	total := 0
-	switch *prop {
-	case "C01":
-		total = pick(24, 256)*8 + pick(60, 2000)*5
-	case "C02":
-		total = pick(800, 40000)
-	case "C03":
-		total = pick(2500, 60000)
-	case "C04":
-		total = pick(700, 20000)
-	case "C05":
-		total = pick(600, 20000)
-	case "C06":
-		total = pick(3000, 100000)
-	case "C07":
-		total = pick(900, 20000)
-	case "C08":
-		total = pick(70, 1500)
-	case "C09":
-		total = pick(120, 2500)
-	case "C10":
-		total = pick(150, 3000) * 42
-	case "C13":
-		total = pick(1500, 40000)
-	case "C14":
-		total = pick(450, 10000)
-	case "C18":
-		total = pick(400, 10000)
-	default:
-		fmt.Fprintln(os.Stderr, "harness: no trace generator for", *prop)
-		os.Exit(2)
-	}
-	m.perFile = total / *shards
-	if m.perFile < 10 {
-		m.perFile = 10
-	}
-	switch *prop {
-	case "C01":
-		// full-width multiplications dominate the validator's time: one per shard first
-		m.perFile = 1
-		genC01(m, pick(24, 256), 0)
-		m.perFile = pick(60, 2000) * 5 / *shards
-		genC01(m, 0, pick(60, 2000))
-	case "C02":
-		genC02(m, total)
-	case "C03":
-		genC03(m, total)
-	case "C04":
-		genC04(m, total)
-	case "C05":
-		genC05(m, total)
-	case "C06":
-		genC06(m, total)
-	case "C07":
-		genC07(m, total)
-	case "C08":
-		genC08(m, total)
-	case "C09":
-		genC09(m, total)
-	case "C10":
-		genC10(m, pick(150, 3000), 40)
-	case "C13":
-		genC13(m, total)
-	case "C14":
-		genC14(m, total)
-	case "C18":
-		genC18(m, total)
+	if *scenario != "" {
+		if err := runScenario(m, *scenario); err != nil {
+			fmt.Fprintln(os.Stderr, "harness: scenario:", err)
+			os.Exit(2)
+		}
+	} else {
+		g, ok := gens[*prop]
+		if !ok {
+			fmt.Fprintln(os.Stderr, "harness: no trace generator for", *prop)
+			os.Exit(2)
+		}
+		g(m, pick, *shards)
 	}
 	m.close()
 	fmt.Println(m.summary())
